@@ -340,7 +340,7 @@ func c19Examples(c *Ctx) {
 func init() {
 	register("c19", func(c *Ctx) {
 		c19Examples(c)
-		n := 40 * c.Scale
+		n := 32 * c.Scale
 		maxBlocks := 9 // buckets stay below sort.Sort's insertion-sort threshold (stable), see notes/design/C19.md
 		archs := make([]Arch, n)
 		for i := range archs {
